@@ -38,7 +38,7 @@ BOUNDS = {
     "quick": dict(strings="all str with len <= 3 (CrossHair, refutation / len <= 1 exhaustive); 820 strings over "
                           "{x,y,z,X,Y,Z,+,-,space} enumerated", vectors="list/tuple/array, length 2 and 3, 6 axis directions, "
                   "symbolic magnitude > 0 (+ enumerated 1, 2.5, 1e-3, 4e5)",
-                  forward_meshes=["2x2", "3x2", "2x3"], directions="all 4 (2D)", nsampling=[3],
+                  forward_meshes=["2x2", "3x2", "2x3", "3x2x2", "2x2x3"], directions="all 4 (2D) / 6 (3D)", nsampling=[3, 5, 9],
                   parameters="symbolic 1 < p <= 40, q > 0, shift > 0, backshift > 0, eps > 0; x in [0,1]",
                   equivariance="mirror x, mirror y, swap x<->y on 2x2, 3x2, 2x3"),
     "thorough": dict(strings="as quick", vectors="as quick",
@@ -712,7 +712,7 @@ def items(tier):
     out.append(dict(kind="vector", id="vector-symbolic-magnitude"))
     out.append(dict(kind="vector-enum", id="vector-enum"))
     meshes2 = [(2, 2, 0), (3, 2, 0), (2, 3, 0)] + ([] if q else [(3, 3, 0), (4, 3, 0), (3, 4, 0)])
-    meshes3 = [] if q else [(2, 2, 2), (3, 2, 2), (2, 3, 2), (2, 2, 3)]
+    meshes3 = [(3, 2, 2), (2, 2, 3)] if q else [(2, 2, 2), (3, 2, 2), (2, 3, 2), (2, 2, 3)]
     for mesh in meshes2:
         for axis in (0, 1):
             for sign in (1, -1):
